@@ -320,7 +320,7 @@ func (s *Scope) buildStructLike(cu *CodeUtils, v *parser.StructLike, usedName ..
 	s.globals.MustReserve(fids, _p("ids:"+nn))
 
 	// built-in methods
-	funcs := []string{"Read", "Write", "String"}
+	funcs := []string{"Read", "Write", "String", "InitDefault"}
 	if !strings.HasPrefix(v.Name, prefix) {
 		if v.Category == "union" {
 			funcs = append(funcs, "CountSetFields")
